@@ -30,6 +30,12 @@ def variantKey (cfg : Cfg) (renameAll : Option Rule) (v : Variant) : Str :=
     | .panic _ => ident
   | none, none => ident
 
+/-- the `rename_all` serde applies to a variant's fields: the variant's own, else the enum's `rename_all_fields` -/
+def renameAllS (it : Item) (var : Variant) : Option Rule :=
+  match var.attr.renameAll with
+  | some r => some r
+  | none => it.attr.renameAllFields
+
 def isNoneVal : RVal → Bool
   | .none => true
   | _ => false
@@ -106,12 +112,10 @@ def serVariant (cfg : Cfg) (env : Env) : Nat → Item → List (Str × RTy) → 
     if var.attr.skip then none                      -- serde: "the enum variant … cannot be serialized"
     else
       let name := variantKey cfg it.attr.renameAll var
-      let renameAll := match var.attr.renameAll with
-        | some r => some r
-        | none => it.attr.renameAllFields
+      let renameAll := renameAllS it var
       let tg := if var.attr.untagged then Derive.Tagged.untagged else Derive.tagged it.attr
       -- a newtype variant whose only field is skipped behaves like a unit variant
-      let unitLike := var.shape = .unit || (var.shape = .tuple && (match var.fields with | [fld] => fld.attr.skip | _ => false))
+      let unitLike := var.unitLike
       let content : Option JVal :=
         if unitLike then some .null
         else serStructBody cfg env f σ renameAll none name var.shape var.fields vals
